@@ -267,7 +267,7 @@ func genRejected(rt *rapid.T) (string, []string) {
 
 func TestStructuredErrors(t *testing.T) {
 	hx.Rule("structured_errors", "rejected inputs (single-token corruptions of G-SQL statements in one-line and multi-line layouts, lexical errors of 13 kinds after a valid prefix, soup, nesting beyond the depth limit in 5 constructs, bad statement starts) x 15 entry points; every reported error must unwrap to *errors.Error with a documented code of the failing stage's family, non-empty message, in-range location when set, reachable cause, and be identical on a second call after unrelated parses; non-trivial = the failing token is not the first token; distinct = (entry, class, code)")
-	errCheck.Rapid(t, hx.N(8000, 400000), func(rt *rapid.T) ErrCase {
+	errCheck.Rapid(t, hx.N(40000, 400000), func(rt *rapid.T) ErrCase {
 		s, cl := genRejected(rt)
 		e := rapid.SampledFrom(entries).Draw(rt, "entry")
 		nt := false
@@ -346,7 +346,7 @@ func TestErrorIndependentOfEarlierStatements(t *testing.T) {
 		}
 		deepest = d
 	}
-	scriptErrCheck.Rapid(t, hx.N(2500, 150000), func(rt *rapid.T) ScriptErrCase {
+	scriptErrCheck.Rapid(t, hx.N(12500, 150000), func(rt *rapid.T) ScriptErrCase {
 		n := rapid.IntRange(1, 4).Draw(rt, "nbefore")
 		var c ScriptErrCase
 		failing := false
